@@ -274,12 +274,16 @@ pub struct Lazy<T: Copy> {
     dst: WriteStream<T>,
     arm: usize,
     left: usize,
+    /// Answer `Again` instead of `Pending` while cooking: a call that only
+    /// changed state and wants to be called again (the first "good example" in
+    /// the documentation of `BlockRet::Again`; FileSource does it on rewind).
+    again: bool,
 }
 
 impl<T: Copy> Lazy<T> {
-    pub fn new(src: ReadStream<T>, arm: usize) -> (Self, ReadStream<T>) {
+    pub fn new(src: ReadStream<T>, arm: usize, again: bool) -> (Self, ReadStream<T>) {
         let (dst, r) = rustradio::stream::new_stream();
-        (Self { src, dst, arm, left: arm }, r)
+        (Self { src, dst, arm, left: arm, again }, r)
     }
 }
 impl<T: Copy> BlockName for Lazy<T> {
@@ -304,7 +308,7 @@ impl<T: Copy> Block for Lazy<T> {
         }
         if self.left > 0 {
             self.left -= 1;
-            return Ok(BlockRet::Pending);
+            return Ok(if self.again { BlockRet::Again } else { BlockRet::Pending });
         }
         self.left = self.arm;
         let n = i.len().min(o.len());
